@@ -566,6 +566,38 @@ static void space4 (long start)
   }
 }
 
+/* ------------------------------------------------------------ space 5 */
+/* every program of the shared program space (L1: every single-opcode form incl. the special constant domains of shifts,
+ * load offsets and resampling; L5; L6) compiled for the five targets that are not executed anywhere else: c, c64x-c,
+ * neon (32- and 64-bit flags), altivec, mips.  Only termination, classification and memory safety are judged. */
+static long g5_start;
+static void space5_prog (VProg * vp, void *user)
+{
+  long idx = g_idx++;
+  OrcProgram *p;
+  char sig[120];
+  int t;
+  (void) user;
+  if (idx < g5_start || (idx % nshards) != shard) return;
+  if (!thorough && (idx % 2) && strncmp (vp->name, "vL1", 3) == 0 && vp->ni == 1 && !(op_is_loadoff (orc_opcode_find_by_name (vp->in[0].op)) || op_is_ldres (orc_opcode_find_by_name (vp->in[0].op)))) return;
+  p = vprog_build (vp);
+  snprintf (sig, sizeof (sig), "prog/%s%s", vp->in[0].op, vp->ni > 1 ? ",..." : "");
+  st_programs++;
+  for (t = 3; t < NT; t++) {
+    if (!targets[t]) continue;
+    try_compile (p, t, orc_target_get_default_flags (targets[t]), 0, sig, vprog_oneline (vp), 0);
+    if (!strcmp (tnames[t], "neon")) try_compile (p, t, ORC_TARGET_NEON_NEON | ORC_TARGET_NEON_64BIT, 1, sig, vprog_oneline (vp), 0);
+  }
+  orc_program_free (p);
+}
+static void space5 (long start)
+{
+  g5_start = start;
+  pgen_L1 (space5_prog, NULL, PG_INT | PG_FLOAT);
+  pgen_L5 (space5_prog, NULL);
+  pgen_L6 (space5_prog, NULL, PG_INT | PG_FLOAT);
+}
+
 static void worker (long start, void *user)
 {
   int t;
@@ -578,6 +610,7 @@ static void worker (long start, void *user)
   if (space == 1) space1 (start);
   else if (space == 2) space2 (start);
   else if (space == 4) space4 (start);
+  else if (space == 5) space5 (start);
   else space3 (start);
   v_out ("{\"t\":\"stat\",\"programs\":%ld,\"compiles\":%ld,\"successful\":%ld,\"nonfatal\":%ld,\"fatal\":%ld,\"native_runs\":%ld,\"emulation_runs\":%ld,\"violations_raw\":%ld}",
       st_programs, st_compiles, st_ok, st_fail, st_fatal, st_runs, st_emul, st_viol);
